@@ -351,12 +351,12 @@ fn main() {
     let a: Vec<String> = std::env::args().collect();
     let args = &Args::parse(&a[1..]);
     let mut out = Out::new(&args.out, "C18", args.shards, &header());
-    out.nontrivial_rule = "pairs of replica states (HashMap<String,ReplicatedValue>) produced by three real ShardReplicaStates writing LWW/hash/counter/set values to a small key space and gossiping part of the deltas; pair = same content rebuilt in a shuffled insertion order / same delta set folded in two orders / two partially synced replicas / small-limit pair / long LWW strings (47..4097 bytes) under equal outer stamps that are equal, differ in one byte (head, middle, tail) or only in length; depth 0-3 (1-8 buckets, many keys per bucket) or 8; non-trivial = both states non-empty and some bucket holds >= 2 keys; distinct by canonical text of (content A, content B, depth, limit)".into();
+    out.nontrivial_rule = "pairs of replica states (HashMap<String,ReplicatedValue>) produced by three real ShardReplicaStates writing LWW/hash/counter/set values to a small key space and gossiping part of the deltas; pair = same content rebuilt in a shuffled insertion order / same delta set folded in two orders / two partially synced replicas / small-limit pair / long LWW strings (47..4097 bytes) under equal outer stamps that are equal, differ in one byte (head, middle, tail) or only in length / the same (value, stamp) records permuted, rotated or duplicated over 2-4 keys of one bucket; depth 0-3 (1-8 buckets, many keys per bucket) or 8; non-trivial = both states non-empty and some bucket holds >= 2 keys; distinct by canonical text of (content A, content B, depth, limit)".into();
     let range: Vec<u64> = match args.only { Some(i) => vec![i], None => (0..args.n).collect() };
     let rounds_max = args.get("rounds", 12);
     for i in range {
         let mut rng = case_rng(args.seed, i);
-        let scen = *[0u32, 0, 0, 1, 1, 2, 2, 2, 3, 4, 4, 6, 7, 7].choose(&mut rng).unwrap();
+        let scen = *[0u32, 0, 0, 1, 1, 2, 2, 2, 3, 4, 4, 6, 7, 7, 8, 8].choose(&mut rng).unwrap();
         let scen = if rng.gen_bool(0.004) { 5 } else { scen };
         let plain = rng.gen_bool(0.45);
         let nkeys = *[1usize, 3, 6, 10, 16, 24, 40].choose(&mut rng).unwrap();
@@ -445,6 +445,54 @@ fn main() {
                     y.insert(k, ReplicatedValue::with_value(SDS::new(vb), ts));
                 }
                 (x, y, "long-equal-stamp")
+            }
+            8 => {
+                // the same (value, stamp) records attached to different keys of ONE bucket:
+                // A and B hold the same multiset of keys (of that bucket) and draw from the same
+                // records, but the assignment key -> record is permuted (swap / rotation),
+                // or one record is duplicated on several keys (A: all X, B: all Y), or equal.
+                // Everything is digest-visible; a digest that combines key and value hashes
+                // per bucket without binding them together cannot tell these states apart.
+                let (mut x, mut y): (Map, Map) = (s0.replicated_keys.clone(), s0.replicated_keys);
+                depth = depth.min(3);
+                let probe = ReplicatedValue::with_value(SDS::new(vec![]), LamportClock { time: 1, replica_id: ReplicaId(1) });
+                let mut by_bucket: BTreeMap<usize, Vec<String>> = BTreeMap::new();
+                for j in 61..NSYM_KEYS {
+                    let k = key_name(j);
+                    by_bucket.entry(bucket_of_key(&k, &probe, depth)).or_default().push(k);
+                }
+                let mut groups: Vec<Vec<String>> = by_bucket.into_values().filter(|g| g.len() >= 2).collect();
+                groups.shuffle(&mut rng);
+                let ngroups = rng.gen_range(1..3).min(groups.len());
+                for g in groups.iter_mut().take(ngroups) {
+                    g.shuffle(&mut rng);
+                    let nk = rng.gen_range(2..5).min(g.len());
+                    let keys = &g[..nk];
+                    // records: (value, stamp); stamps may repeat across records (same time mostly,
+                    // so that max_timestamp of the bucket does not give the difference away)
+                    let same_time = rng.gen_bool(0.6);
+                    let t0 = rng.gen_range(1..6u64);
+                    let recs: Vec<ReplicatedValue> = (0..nk)
+                        .map(|_| {
+                            let val: Vec<u8> = if rng.gen_bool(0.15) { longval(LENS[rng.gen_range(0..LENS.len())], rng.gen()) } else { VALS[rng.gen_range(0..VALS.len())].to_vec() };
+                            let ts = LamportClock { time: if same_time { t0 } else { rng.gen_range(1..6) }, replica_id: ReplicaId(rng.gen_range(1..4)) };
+                            ReplicatedValue::with_value(SDS::new(val), ts)
+                        })
+                        .collect();
+                    let variant = rng.gen_range(0..5);
+                    let (pa, pb): (Vec<usize>, Vec<usize>) = match variant {
+                        0 => { out.count("records:swap-two"); let mut p: Vec<usize> = (0..nk).collect(); p.swap(0, 1); ((0..nk).collect(), p) }
+                        1 => { out.count("records:rotate"); ((0..nk).collect(), (0..nk).map(|j| (j + 1) % nk).collect()) }
+                        2 => { out.count("records:all-X-vs-all-Y"); (vec![0; nk], vec![1; nk]) }
+                        3 => { out.count("records:random-assignment"); ((0..nk).map(|_| rng.gen_range(0..nk)).collect(), (0..nk).map(|_| rng.gen_range(0..nk)).collect()) }
+                        _ => { out.count("records:same"); ((0..nk).collect(), (0..nk).collect()) }
+                    };
+                    for (j, k) in keys.iter().enumerate() {
+                        x.insert(k.clone(), recs[pa[j]].clone());
+                        y.insert(k.clone(), recs[pb[j]].clone());
+                    }
+                }
+                (x, y, "records-permuted-in-bucket")
             }
             _ => (s0.replicated_keys, HashMap::new(), "panic-depth"),
         };
